@@ -1,5 +1,6 @@
 import Pcore.Proofs.ValueEqTy
 import Pcore.Proofs.ValueEqVerStr
+import Pcore.Proofs.ValueEqObj
 import Mathlib.Data.List.Perm.Subperm
 /-! Helper lemmas for C07: the hypotheses of the property theorems (`Comparable`), an induction principle for `Val`,
     and `veq` is an equivalence relation on comparable values. -/
@@ -64,7 +65,7 @@ def ecmp : Val → Bool
   | .timestamp a b => (minInt ≤ a && a ≤ maxInt) && (minInt ≤ b && b ≤ maxInt)
   | .deferred _ as => ecmpL as
   | .param _ t _ v _ => TyWF t && ecmp v
-  | .obj _ _ => false          -- (stage 1: object instances are in the model and in the correspondence run, not yet in a theorem)
+  | .obj t vs => objWF t vs && ecmpL vs     -- an instance as `px.New` makes it (unique attribute names, one value each)
   | _ => true
 def ecmpL : List Val → Bool
   | [] => true
@@ -339,7 +340,14 @@ theorem veq_refl_e : ∀ x : Val, ecmp x = true → veq x x = true := by
   · intro n t hv v c ih h
     simp only [ecmp, Bool.and_eq_true] at h
     simp [veq, tyEq_refl t h.1, ih h.2]
-  · intro t vs _ h; simp [ecmp] at h
+  · intro t vs ih h
+    simp only [ecmp, Bool.and_eq_true] at h
+    have hx := objWF_spec h.1
+    rw [veq_obj_view hx hx]
+    refine ⟨by simp [objPre], fun n v hm => ⟨v, hm, ?_⟩⟩
+    obtain ⟨i, _, _, hv⟩ := mem_eqView.mp hm
+    have hvm : v ∈ vs := List.mem_of_getElem? hv
+    exact ih v hvm (ecmpL_mem h.2 v hvm)
 
 /-! ## symmetry -/
 
@@ -465,7 +473,31 @@ theorem veq_symm_e : ∀ x y : Val, ecmp x = true → ecmp y = true → veq x y 
     rename_i n' t' hv' v' c'
     simp only [ecmp, Bool.and_eq_true] at cx cy
     rw [ih v' cx.2 cy.2, tyEq_symm t t', beq_swap n n', beq_swap hv hv', beq_swap c c']
-  · intro t vs _ y h; simp [ecmp] at h
+  · intro t vs ih y cx cy
+    cases y with
+    | obj t' ws => ?_
+    | _ => simp [veq]
+    simp only [ecmp, Bool.and_eq_true] at cx cy
+    have hx := objWF_spec cx.1
+    have hy := objWF_spec cy.1
+    have sw : ∀ n v w, (n, v) ∈ eqView t vs → (n, w) ∈ eqView t' ws → veq v w = veq w v := by
+      intro n v w hv hw
+      obtain ⟨i, _, _, hvi⟩ := mem_eqView.mp hv
+      obtain ⟨j, _, _, hwj⟩ := mem_eqView.mp hw
+      have hvm : v ∈ vs := List.mem_of_getElem? hvi
+      have hwm : w ∈ ws := List.mem_of_getElem? hwj
+      exact ih v hvm w (ecmpL_mem cx.2 v hvm) (ecmpL_mem cy.2 w hwm)
+    apply Bool.eq_iff_iff.mpr
+    rw [veq_obj_view hx hy, veq_obj_view hy hx, objPre_symm t' t]
+    constructor
+    · rintro ⟨hp, hle⟩
+      refine ⟨hp, viewLe_symm (eqView_names_nodup hx) (eqView_names_nodup hy) ?_ ?_ hle⟩
+      · rw [eqView_length hx, eqView_length hy]; exact objPre_length hp
+      · intro n v w hv hw h; rw [← sw n v w hv hw]; exact h
+    · rintro ⟨hp, hle⟩
+      refine ⟨hp, viewLe_symm (eqView_names_nodup hy) (eqView_names_nodup hx) ?_ ?_ hle⟩
+      · rw [eqView_length hx, eqView_length hy]; exact (objPre_length hp).symm
+      · intro n w v hw hv h; rw [sw n v w hv hw]; exact h
 
 /-! ## transitivity -/
 
@@ -572,7 +604,16 @@ theorem veq_trans_e : ∀ x y z : Val, ecmp x = true → ecmp y = true → veq x
     simp only [ecmp, Bool.and_eq_true] at cx cy
     intro e1 e2 e3 h1 h2 f1 f2 f3 g1 g2
     exact ⟨⟨⟨⟨e1.trans f1, e2.trans f2⟩, e3.trans f3⟩, tyEq_trans _ _ _ h1 g1⟩, ih v' v'' cx.2 cy.2 h2 g2⟩
-  · intro t vs _ y z h; simp [ecmp] at h
+  · intro t vs ih y z cx cy h1 h2
+    cases y with
+    | obj t' ws =>
+      cases z with
+      | obj t'' us =>
+        simp only [ecmp, Bool.and_eq_true] at cx cy
+        exact veq_obj_trans (objWF_spec cx.1) (objWF_spec cy.1)
+          (fun v hv w u hw a b => ih v hv w u (ecmpL_mem cx.2 v hv) (ecmpL_mem cy.2 w hw) a b) h1 h2
+      | _ => simp [veq] at h2
+    | _ => simp [veq] at h1
 
 /-! ## `Comparable` is `EqComparable` plus "has a hash key" -/
 
